@@ -59,7 +59,7 @@ WIDE_WITNESSES = [
 
 
 def run(tier, seed, rng):
-    out = E.run_exec_property("C02", tier, rng, 110, 2000, {'alt': [(0.4, {'p_raise': 0.15, 'p_try': 0.4})], 'p_derived': 0.3, 'maxdepth': (30, 60), 'p_ref': 0.35}, {'eval': 6, 'setv': 2, 'clearat': 1, 'clear': 1, 'clearall': 1, 'setf': 2, 'setcached': 1, 'scn_ref': 1, 'scn_unc': 1, 'scn_unc2': 1, 'setref': 3}, (10, 30), ORACLES,
+    out = E.run_exec_property("C02", tier, rng, 110, 2000, {'p_fin_world': 0.2, 'alt': [(0.4, {'p_raise': 0.15, 'p_try': 0.4})], 'p_derived': 0.3, 'maxdepth': (30, 60), 'p_ref': 0.35}, {'eval': 6, 'setv': 2, 'clearat': 1, 'clear': 1, 'clearall': 1, 'setf': 2, 'setcached': 1, 'scn_ref': 1, 'scn_unc': 1, 'scn_unc2': 1, 'setref': 3}, (10, 30), ORACLES,
         'worlds with references read by name and by attribute path (own space, other space, model level, through uncached cells); histories interleaving evaluations with value, formula, flag and reference edits; compared with a model that replayed only the edits, at the end and at a random cut' + "; non-trivial = an edit and a later cache hit; distinct by JSON of the case",
         lambda c, r: any(op[0] in ('setref','setf','setv','setcached') for op in c['ops']) and any(ob['out'][0]=='val' and not ob['log'] for ob in r['obs']), diff=E.oracle_no_stale)
     # wide class ((P) only): its own generator, seeded after every draw of the model-tied cases
